@@ -114,7 +114,7 @@ func c04Alphabet() []Req {
 func TestC04(t *testing.T) {
 	r := NewReporter(t)
 	defer r.Done()
-	r.Rule("(a) all request sequences of length <= depth over a hostile alphabet (unaligned / huge offsets and limits, sector reads with huge start/count, listing and mutation on virtual paths and non-directories, unknown opcodes) against a world with generated images, redump + key, 3k3y, CD image; (b) on-disk content: every PARAM.SFO header/index field set to each boundary value, every truncation, TITLE_ID lengths 0..40; region tables with hostile counts and borders; key files of every length 0..40 and non-hex; 3k3y area x file lengths; (c) name families; each followed by a liveness probe; (d) the same artefacts through make-iso / decrypt; oracle: worker process alive, fresh connection served, no hang, tools exit without a Go panic; distinct by case")
+	r.Rule("(a) all request sequences of length <= depth over a hostile alphabet (unaligned / huge offsets and limits, sector reads with huge start/count, listing and mutation on virtual paths and non-directories, unknown opcodes) against a world with generated images, redump + key, 3k3y, CD image; (b) on-disk content: every PARAM.SFO header/index field set to each boundary value, every truncation, TITLE_ID lengths 0..40; region tables with hostile counts and borders; key files of every length 0..40 and non-hex; 3k3y area x file lengths; (c) name families, directories with unresolvable links (loop, mutual, through a file, dangling), a cycle through the parent and names that are not valid UTF-8; each followed by a liveness probe; (d) the same artefacts through make-iso / decrypt; oracle: worker process alive, fresh connection served, no hang, tools exit without a Go panic; distinct by case")
 	w := c04World(t, r)
 	defer w.Cleanup()
 	alpha := c04Alphabet()
@@ -398,6 +398,63 @@ func TestC04(t *testing.T) {
 			must(os.MkdirAll(filepath.Join(w.Root, "nm", sprintf("d%02d", i/40), sprintf("s%04d", i)), 0o755))
 		}
 		runCase("C04:names", "1100 directories", false, []Req{mkReq(opOpenFile, "/***DVD***/nm"), rdReq(0, 300000), rdcReq(100000, 100000)})
+	}
+	// odd directory content: links that do not resolve for other reasons than "not found" (loop, through a file),
+	// cycles through the parent, names that are not valid UTF-8; one kind per case, then all together
+	oddKinds := []string{"selfloop", "mutual", "thrufile", "dangling", "parentcycle", "badutf8", "all"}
+	for _, kind := range oddKinds {
+		idx++
+		if !r.Mine(idx) {
+			continue
+		}
+		nm := filepath.Join(w.Root, "nm")
+		os.RemoveAll(nm)
+		w.File("nm/plain.bin", 2100, 1)
+		w.File("nm/sub/inner.bin", 5, 1)
+		has := func(k string) bool { return kind == k || kind == "all" }
+		var names []string
+		if has("selfloop") {
+			must(os.Symlink(filepath.Join(nm, "self"), filepath.Join(nm, "self")))
+			names = append(names, "self")
+		}
+		if has("mutual") {
+			must(os.Symlink(filepath.Join(nm, "m2"), filepath.Join(nm, "m1")))
+			must(os.Symlink(filepath.Join(nm, "m1"), filepath.Join(nm, "m2")))
+			names = append(names, "m1")
+		}
+		if has("thrufile") {
+			must(os.Symlink(filepath.Join(nm, "plain.bin", "x"), filepath.Join(nm, "thru")))
+			names = append(names, "thru")
+		}
+		if has("dangling") {
+			must(os.Symlink(filepath.Join(nm, "nothing"), filepath.Join(nm, "dang")))
+			names = append(names, "dang")
+		}
+		if has("parentcycle") {
+			must(os.Symlink(nm, filepath.Join(nm, "sub", "up")))
+			names = append(names, "sub/up")
+		}
+		if has("badutf8") {
+			w.File("nm/\xc8\xe3\xf0\xe0.iso", 7, 1)
+			w.File("nm/\xff\xfe/\xfd", 7, 1)
+			names = append(names, "\xc8\xe3\xf0\xe0.iso", "\xff\xfe")
+		}
+		reqs := []Req{mkReq(opOpenDir, "/nm"), noargReq(opReadDir), mkReq(opOpenDir, "/nm")}
+		for i := 0; i < 9; i++ {
+			reqs = append(reqs, noargReq(opReadDirEntry))
+		}
+		reqs = append(reqs, mkReq(opOpenDir, "/nm"))
+		for i := 0; i < 9; i++ {
+			reqs = append(reqs, noargReq(opReadDirEntryV2))
+		}
+		reqs = append(reqs, mkReq(opGetDirSize, "/nm"), mkReq(opGetDirSize, "/"))
+		for _, n := range names {
+			reqs = append(reqs, mkReq(opStatFile, "/nm/"+n), mkReq(opOpenFile, "/nm/"+n), mkReq(opOpenDir, "/nm/"+n), noargReq(opReadDir), mkReq(opGetDirSize, "/nm/"+n), mkReq(opOpenFile, "/***DVD***/nm/"+n))
+		}
+		reqs = append(reqs, mkReq(opOpenFile, "/***DVD***/nm"), rdReq(0, 70000), mkReq(opOpenFile, "/***PS3***/nm"), rdReq(0, 4096))
+		runCase("C04:odd-dir", "directory with "+kind+" entries", false, reqs)
+		binSession("directory with "+kind+" entries", reqs)
+		os.RemoveAll(nm)
 	}
 	// (d) the same artefacts through the offline tools
 	if binPath() != "" {
